@@ -216,8 +216,8 @@ Print Assumptions fsa_generic_is_patricia.
 (* ------------------------------------------------------------------ double-array storage (ModelDa.v) *)
 
 (* da_refines_set: for EVERY history of insert / contains / len / accepts / longest_prefix calls over byte-string keys in
-   which no insert returns Err (relocate_state gives up after 10001 attempts of stride 257, which needs arrays of
-   millions of slots), the ZiporaTrie over the double array started empty - base/check arrays, terminal bit, growth,
+   which no insert returns Err (relocate_state would need a base beyond the 31-bit base field: da_noerr_or_huge),
+   the ZiporaTrie over the double array started empty - base/check arrays, terminal bit, growth,
    find_free_base, collision handling and relocation included - answers exactly like the set of keys inserted.
    remove is `_ => Ok(false)` for this storage (da_remove_refuted); keys / keys_with_prefix: da_keys_enumerates *)
 Theorem da_refines_set : forall ops, Forall da_op_ok ops -> d_noerr d_empty ops = true -> d_run d_empty ops = s_run [] ops.
@@ -378,9 +378,11 @@ Check cs_refines_set_noop_remove : forall ops, Forall op_ok ops -> cs_run c_empt
 Print Assumptions cs_refines_set_noop_remove.
 
 (* ------------------------------------------------------------------ when can an insert into the double array report an error?
-   Only when relocate_state has probed 10001 bases of stride 257 without success, and then the arrays are longer than
-   HUGE = 2 570 000 slots (the error leaves them that long).  So the hypothesis d_noerr of da_refines_set can only
-   fail for a history one of whose prefixes has already grown an array beyond 2 570 000 slots. *)
+   Only when relocate_state would need a base beyond MAX_BASE = 0x7FFF_FFFE - 256 (the 31-bit base field), and then the
+   arrays are longer than HUGE = MAX_BASE - 257 = 2 147 483 133 slots: the capacity of the format.  So the hypothesis
+   d_noerr of da_refines_set can only fail for a history one of whose prefixes has already grown an array to that size.
+   (Before the fix: commit "relocate_state falls back to the end of the arrays" the search gave up after 10001 probes,
+   i.e. from 2 570 000 slots on - reached by a probe with 468 399 random 8-byte keys.) *)
 Theorem da_insert_err_only_when_huge : forall d addr key d', bytes_ok key -> DInv d addr -> da_insert d key = (d', None) -> HUGE < blen d'.
 Proof. exact da_insert_err. Qed.
 Check da_insert_err_only_when_huge : forall d addr key d', bytes_ok key -> DInv d addr -> da_insert d key = (d', None) -> HUGE < blen d'.
